@@ -1642,6 +1642,9 @@ namespace
         void* (*alloc)(void*, std::size_t, std::size_t);
         void (*dealloc)(void*, void*, std::size_t, std::size_t);
         void (*mkarray)(void*, void*);
+        void (*vassign)(void*, void*, int, bool); // dst.v = src.v / std::move(src.v) between two joint objects
+        bool (*valloc_own)(void*, int);           // does v.get_allocator() refer to this object's joint memory
+        void (*reset)(void*);
     };
     template <class Ea, class Eb>
     struct gimpl
@@ -1695,10 +1698,36 @@ namespace
         {
             ::new (st) garr(3, *P(s));
         }
+        static void vassign(void* d, void* s, int v, bool mv)
+        {
+            if (v == 0)
+            {
+                if (mv)
+                    P(d)->v0 = std::move(P(s)->v0);
+                else
+                    P(d)->v0 = P(s)->v0;
+            }
+            else
+            {
+                if (mv)
+                    P(d)->v1 = std::move(P(s)->v1);
+                else
+                    P(d)->v1 = P(s)->v1;
+            }
+        }
+        static bool valloc_own(void* s, int v)
+        {
+            fm::joint_allocator own(*P(s));
+            return v == 0 ? P(s)->v0.get_allocator().get_allocator() == own : P(s)->v1.get_allocator().get_allocator() == own;
+        }
+        static void reset(void* s)
+        {
+            P(s).reset();
+        }
         static grow_ops make()
         {
             return grow_ops{{Ea::size_v, Eb::size_v}, {Ea::align_v, Eb::align_v}, sizeof(T), alignof(T), &create, &destroy, &push,
-                            &shrink, &vlook, &alloc, &dealloc, &mkarray};
+                            &shrink, &vlook, &alloc, &dealloc, &mkarray, &vassign, &valloc_own, &reset};
         }
     };
     const grow_ops g_gtypes[] = {gimpl<elem<1, 1>, elem<2, 2>>::make(), gimpl<elem<2, 1>, elem<4, 4>>::make(),
@@ -2257,6 +2286,503 @@ namespace
             }
     }
 
+    //=== (H) container assignment between the vector members of TWO joint objects ===//
+    constexpr int COPS = 14, CMAXCODES = 40;
+    std::string   cop_name(int op)
+    {
+        const char* o[2] = {"X", "Y"};
+        if (op < 4)
+            return fmt("%s.v%d = std::move(%s.v%d)", o[op / 2], op % 2, o[1 - op / 2], op % 2);
+        if (op < 8)
+            return fmt("%s.v%d = %s.v%d", o[(op - 4) / 2], op % 2, o[1 - (op - 4) / 2], op % 2);
+        if (op < 12)
+            return fmt("push_back on %s.v%d until it reallocates", o[(op - 8) / 2], op % 2);
+        return fmt("joint_ptr of %s .reset()", o[op - 12]);
+    }
+
+    struct cross_case
+    {
+        int         gtype;
+        std::size_t add[2]; // X lives in a block of upstream A, Y in a block of upstream B
+    };
+
+    struct cross_stats
+    {
+        u64 sequences = 0, skipped = 0, ops = 0, move_assign_ok = 0, copy_assign_ok = 0, assign_refused = 0, assign_reallocated = 0,
+            assign_in_place = 0, reallocations = 0, growth_refused = 0, resets = 0, assign_after_which_source_was_reset = 0,
+            succeeded_beyond_model = 0, violations_total = 0;
+    };
+    cross_stats g_cs;
+    std::vector<u8> g_cseen;
+    u64             g_cdistinct = 0;
+
+    struct cross_runner
+    {
+        const grow_ops* t;
+        cross_case      c;
+        struct cvec
+        {
+            long        off;
+            std::size_t cap, size;
+            u8          codes[CMAXCODES];
+        };
+        struct cobj
+        {
+            alignas(16) u8 slot[SLOT_BYTES];
+            bool        alive, created;
+            const u8*   mem;
+            std::size_t cap, mtop;
+            cvec        mv[2];
+            bool        was_assign_target;
+        } o[2];
+        bool model_valid, verbose, last_threw;
+        int  serial;
+
+        long m_alloc(cobj& ob, std::size_t size, std::size_t al)
+        {
+            std::uintptr_t base = reinterpret_cast<std::uintptr_t>(ob.mem);
+            std::uintptr_t top = base + ob.mtop, end = base + ob.cap, a = (top + al - 1) / al * al;
+            if (a > end || size > end - a)
+                return -1;
+            ob.mtop = std::size_t(a + size - base);
+            return long(a - base);
+        }
+        void m_dealloc(cobj& ob, long off, std::size_t size)
+        {
+            if (std::size_t(off) + size == ob.mtop)
+                ob.mtop = std::size_t(off);
+        }
+
+        void begin(const grow_ops* tt, const cross_case& cc, bool verb)
+        {
+            t = tt, c = cc, verbose = verb;
+            for (int u = 0; u != 2; ++u)
+            {
+                std::size_t used = g_up[u].top + 64 < ARENA ? g_up[u].top + 64 : ARENA;
+                std::memset(g_livemap[u], 0, used);
+                g_up[u].reset(u, u == 0 ? 0 : 8);
+            }
+            g_live_in_arena = g_live_outside = 0;
+            g_fail.set                       = false;
+            g_throw_at                       = 0;
+            g_sizeofT                        = t->sizeofT;
+            model_valid                      = true;
+            serial                           = 0;
+            o[0].created = o[1].created = o[0].alive = o[1].alive = false;
+            for (int k = 0; k != 2; ++k)
+            {
+                t->create(o[k].slot, g_up[k], c.add[k]);
+                o[k].created = o[k].alive = true;
+                const block& b            = g_up[k].blk[0];
+                o[k].mem                  = b.addr + t->sizeofT;
+                o[k].cap                  = b.size - t->sizeofT;
+                o[k].mtop                 = 0;
+                o[k].was_assign_target    = false;
+                for (int v = 0; v != 2; ++v)
+                    o[k].mv[v].off = -1, o[k].mv[v].cap = o[k].mv[v].size = 0;
+                if (g_up[k].n_alloc != 1 || b.size != t->sizeofT + c.add[k] || b.align != t->alignofT)
+                    fail("allocation-size", "allocate_joint asked upstream %c for %zu bytes alignment %zu", 'A' + k, b.size, b.align);
+            }
+        }
+
+        int pre_class() const
+        {
+            auto capc = [](std::size_t cp) { return cp == 0 ? 0 : cp == 1 ? 1 : cp == 2 ? 2 : cp <= 4 ? 3 : cp <= 8 ? 4 : 5; };
+            int  r    = 0;
+            for (int k = 0; k != 2; ++k)
+                r = r * 37 + (o[k].alive ? 1 + capc(o[k].mv[0].cap) * 6 + capc(o[k].mv[1].cap) : 0);
+            return r; // < 37*37
+        }
+        void note(int op, int pre, int outcome)
+        {
+            std::size_t idx = ((std::size_t(c.gtype) * COPS + std::size_t(op)) * 1369 + std::size_t(pre)) * 3 + std::size_t(outcome);
+            u8          bit = u8(1u << (idx & 7));
+            if (!(g_cseen[idx >> 3] & bit))
+            {
+                g_cseen[idx >> 3] |= bit;
+                ++g_cdistinct;
+            }
+        }
+
+        void check(int op)
+        {
+            if (g_fail.set)
+                return;
+            std::size_t elems = 0;
+            const char* nm[2] = {"X", "Y"};
+            for (int k = 0; k != 2; ++k)
+            {
+                const upstream& u = g_up[k];
+                long            w;
+                if (u.n_alloc != 1 || u.n_dealloc != (o[k].alive ? 0 : 1))
+                    return fail("upstream-release-count", "after %s: upstream %c saw %ld allocations and %ld releases, expected 1 and %d",
+                                cop_name(op).c_str(), 'A' + k, u.n_alloc, u.n_dealloc, o[k].alive ? 0 : 1);
+                if (!u.guards_ok(u.blk[0], &w))
+                    return fail("guard-damaged", "after %s: byte at offset %ld of the block of %s (size %zu) was overwritten",
+                                cop_name(op).c_str(), w, nm[k], u.blk[0].size);
+                if (!o[k].alive)
+                    continue;
+                const u8*   pd[2];
+                std::size_t pn[2];
+                for (int v = 0; v != 2; ++v)
+                {
+                    const u8*   d;
+                    std::size_t n, cp;
+                    t->vlook(o[k].slot, v, &d, &n, &cp);
+                    pd[v] = d, pn[v] = cp * t->s[v];
+                    elems += n;
+                    if (cp)
+                    {
+                        if (!d)
+                            return fail("piece-null", "after %s: %s.v%d has capacity %zu but a null buffer", cop_name(op).c_str(), nm[k], v, cp);
+                        const u8* end = o[k].mem + o[k].cap;
+                        if (d < o[k].mem || d > end || std::size_t(end - d) < pn[v])
+                        {
+                            const cobj& other = o[1 - k];
+                            bool        in_other = d >= other.mem && d <= other.mem + other.cap;
+                            return fail("piece-outside-block",
+                                        "after %s: the buffer of %s.v%d (%zu bytes) does not lie in the joint memory of %s's own block%s",
+                                        cop_name(op).c_str(), nm[k], v, pn[v], nm[k],
+                                        in_other ? (other.alive ? " but in the block of the other object" :
+                                                                  " but in the RELEASED block of the other object") :
+                                                   "");
+                        }
+                        if (reinterpret_cast<std::uintptr_t>(d) % t->a[v] != 0)
+                            return fail("piece-misaligned", "after %s: the buffer of %s.v%d is misaligned", cop_name(op).c_str(), nm[k], v);
+                    }
+                    if (!t->valloc_own(o[k].slot, v))
+                        return fail("allocator-propagated",
+                                    "after %s: get_allocator() of %s.v%d no longer refers to the joint memory of %s (a joint_allocator must "
+                                    "not propagate between objects)",
+                                    cop_name(op).c_str(), nm[k], v, nm[k]);
+                    if (model_valid && (cp != o[k].mv[v].cap || n != o[k].mv[v].size))
+                        return harness_fail("model-mismatch", "after %s: %s.v%d has size %zu capacity %zu, the reference model says %zu / %zu",
+                                            cop_name(op).c_str(), nm[k], v, n, cp, o[k].mv[v].size, o[k].mv[v].cap);
+                    if (model_valid)
+                        for (std::size_t i = 0; i != n; ++i)
+                            for (std::size_t j = 0; j != t->s[v]; ++j)
+                                if (d[i * t->s[v] + j] != pat(o[k].mv[v].codes[i], j))
+                                    return fail("content-corrupted", "after %s: element %zu of %s.v%d byte %zu is 0x%02x, expected 0x%02x",
+                                                cop_name(op).c_str(), i, nm[k], v, j, d[i * t->s[v] + j], pat(o[k].mv[v].codes[i], j));
+                }
+                if (pn[0] && pn[1] && pd[0] < pd[1] + pn[1] && pd[1] < pd[0] + pn[0])
+                    return fail("pieces-overlap", "after %s: the buffers of %s.v0 and %s.v1 overlap", cop_name(op).c_str(), nm[k], nm[k]);
+            }
+            if (g_live_in_arena != long(elems) || g_live_outside != 0)
+                return fail("element-balance", "after %s: %ld elements alive in joint memory (+%ld outside), the containers hold %zu",
+                            cop_name(op).c_str(), g_live_in_arena, g_live_outside, elems);
+        }
+
+        void outcome_vs_model(int threw, bool fits, const char* what)
+        {
+            if (threw == 2)
+                return fail("wrong-exception", "%s threw something that is not out_of_fixed_memory", what);
+            if (!model_valid)
+                return;
+            if (threw && fits)
+                return harness_fail("model-mismatch", "%s threw out_of_fixed_memory although it fits the reference model", what);
+            if (!threw && !fits)
+            {
+                ++g_cs.succeeded_beyond_model; // the physical checks decide
+                model_valid = false;
+            }
+        }
+
+        bool apply(int op)
+        {
+            ++g_cs.ops;
+            last_threw = false;
+            int pre = pre_class(), threw = 0;
+            if (op < 8)
+            {
+                bool  mv_ = op < 4;
+                int   d = (op % 4) / 2, v = op % 2;
+                cobj &dst = o[d], &src = o[1 - d];
+                if (!dst.alive || !src.alive)
+                    return false;
+                try
+                {
+                    t->vassign(dst.slot, src.slot, v, mv_);
+                }
+                catch (const fm::out_of_fixed_memory&)
+                {
+                    threw = 1;
+                }
+                catch (...)
+                {
+                    threw = 2;
+                }
+                bool fits = true;
+                if (model_valid)
+                {
+                    cvec &dv = dst.mv[v], &sv = src.mv[v];
+                    if (sv.size > dv.cap)
+                    {
+                        long off = m_alloc(dst, sv.size * t->s[v], t->a[v]);
+                        fits     = off >= 0;
+                        if (fits)
+                        {
+                            if (dv.cap)
+                                m_dealloc(dst, dv.off, dv.cap * t->s[v]);
+                            dv.off = off, dv.cap = sv.size;
+                            ++g_cs.assign_reallocated;
+                        }
+                    }
+                    else
+                        ++g_cs.assign_in_place;
+                    if (fits)
+                    {
+                        dv.size = sv.size;
+                        std::memcpy(dv.codes, sv.codes, sv.size);
+                        if (mv_)
+                            sv.size = 0;
+                    }
+                }
+                if (threw)
+                    ++g_cs.assign_refused;
+                else
+                    ++(mv_ ? g_cs.move_assign_ok : g_cs.copy_assign_ok), dst.was_assign_target = true;
+                outcome_vs_model(threw, fits, mv_ ? "container move assignment" : "container copy assignment");
+            }
+            else if (op < 12)
+            {
+                int   k = (op - 8) / 2, v = op % 2;
+                cobj& ob = o[k];
+                if (!ob.alive)
+                    return false;
+                const u8*   d;
+                std::size_t n, cp;
+                t->vlook(ob.slot, v, &d, &n, &cp);
+                if (cp >= MAXVCAP || n + 1 >= CMAXCODES)
+                    return false;
+                std::size_t pushed = 0;
+                u8          codes[CMAXCODES];
+                try
+                {
+                    do
+                    {
+                        u8 code = u8(0x21 + 7 * ++serial);
+                        t->push(ob.slot, v, code);
+                        codes[pushed++] = code;
+                        ++n;
+                    } while (n <= cp && pushed < 32);
+                }
+                catch (const fm::out_of_fixed_memory&)
+                {
+                    threw = 1;
+                }
+                catch (...)
+                {
+                    threw = 2;
+                }
+                bool fits = true;
+                if (model_valid)
+                {
+                    cvec&       m  = ob.mv[v];
+                    std::size_t c0 = m.cap, nc = c0 + (c0 > 1 ? c0 : 1);
+                    long        off = m_alloc(ob, nc * t->s[v], t->a[v]);
+                    fits            = off >= 0;
+                    for (std::size_t i = 0; i != pushed && m.size < CMAXCODES; ++i)
+                        m.codes[m.size++] = codes[i];
+                    if (fits)
+                    {
+                        if (c0)
+                            m_dealloc(ob, m.off, c0 * t->s[v]);
+                        m.off = off, m.cap = nc;
+                    }
+                }
+                if (threw)
+                    ++g_cs.growth_refused;
+                else
+                    ++g_cs.reallocations;
+                outcome_vs_model(threw, fits, "push_back");
+            }
+            else
+            {
+                int k = op - 12;
+                if (!o[k].alive)
+                    return false;
+                t->reset(o[k].slot);
+                o[k].alive = false;
+                ++g_cs.resets;
+                if (o[1 - k].alive && o[1 - k].was_assign_target)
+                    ++g_cs.assign_after_which_source_was_reset;
+            }
+            last_threw = threw == 1;
+            note(op, pre, threw ? 1 : 0);
+            check(op);
+            if (verbose)
+                std::printf("  %-44s -> %s%s\n", cop_name(op).c_str(), last_threw ? "threw out_of_fixed_memory; " : "",
+                            g_fail.set ? g_fail.tag : describe().c_str());
+            return true;
+        }
+
+        std::string describe()
+        {
+            std::string s;
+            for (int k = 0; k != 2; ++k)
+            {
+                if (!o[k].alive)
+                {
+                    s += fmt("%c: released  ", 'X' + k);
+                    continue;
+                }
+                s += fmt("%c(%zu bytes):", 'X' + k, o[k].cap);
+                for (int v = 0; v != 2; ++v)
+                {
+                    const u8*   d;
+                    std::size_t n, cp;
+                    t->vlook(o[k].slot, v, &d, &n, &cp);
+                    s += cp ? fmt(" v%d=[%ld,+%zu) %zu/%zu", v, long(d - o[k].mem), cp * t->s[v], n, cp) : fmt(" v%d=empty", v);
+                }
+                s += "  ";
+            }
+            return s;
+        }
+
+        void teardown()
+        {
+            if (g_fail.set)
+                return;
+            for (int k = 0; k != 2; ++k)
+            {
+                if (o[k].alive)
+                {
+                    t->reset(o[k].slot);
+                    o[k].alive = false;
+                    check(12 + k); // the other object must be intact after this one is gone
+                    if (g_fail.set)
+                        return;
+                }
+            }
+            for (int k = 0; k != 2; ++k)
+                if (o[k].created)
+                    t->destroy(o[k].slot), o[k].created = false;
+            if (g_live_in_arena != 0 || g_live_outside != 0)
+                return fail("element-balance", "at the end %ld elements are still alive", g_live_in_arena + g_live_outside);
+            for (int k = 0; k != 2; ++k)
+                if (g_up[k].n_alloc != 1 || g_up[k].n_dealloc != 1)
+                    return fail("block-not-released", "at the end upstream %c saw %ld allocations and %ld releases", 'A' + k, g_up[k].n_alloc,
+                                g_up[k].n_dealloc);
+        }
+    };
+    cross_runner g_crun;
+
+    int cross_run(const cross_case& c, const int* ops, int n, bool verbose, std::string* tag, std::string* detail)
+    {
+        int           out     = OUT_OK;
+        volatile bool skipped = false;
+        VERIF_GUARDED(out, {
+            g_crun.begin(&g_gtypes[c.gtype], c, verbose);
+            for (int k = 0; k != n && !g_fail.set; ++k)
+                if (!g_crun.apply(ops[k]))
+                {
+                    skipped = true;
+                    break;
+                }
+            g_crun.teardown();
+        });
+        if (out != OUT_OK && !g_fail.set)
+            fail(out == OUT_ABORTED ? "aborted" : out == OUT_CRASHED ? "crashed" : "hung",
+                 "the library %s during a sequence that respects every documented precondition", outcome_name(out));
+        if (g_fail.set)
+        {
+            *tag    = g_fail.tag;
+            *detail = g_fail.detail;
+            return g_fail.harness ? RES_HARNESS : RES_VIOLATION;
+        }
+        return skipped ? RES_SKIPPED : RES_OK;
+    }
+
+    std::string cross_json(const cross_case& c, const int* ops, int n)
+    {
+        jarr a, names;
+        for (int i = 0; i != n; ++i)
+            a.raw(std::to_string(ops[i])), names.str(cop_name(ops[i]));
+        return jobj()
+            .str("mode", "cross")
+            .str("type", gtype_name(c.gtype))
+            .num("addx", (long long)c.add[0])
+            .num("addy", (long long)c.add[1])
+            .raw("ops", a.done())
+            .raw("text", names.done())
+            .done();
+    }
+
+    constexpr u64 CROSS_VIOLATION_CAP = 2000;
+    bool          cross_one(const cross_case& c, const int* ops, int n)
+    {
+        std::string tag, detail;
+        int         res = cross_run(c, ops, n, false, &tag, &detail);
+        ++g_cs.sequences;
+        if (res == RES_SKIPPED)
+            ++g_cs.skipped;
+        if (res == RES_VIOLATION || res == RES_HARNESS)
+        {
+            std::string tag2, detail2;
+            int         res2 = cross_run(c, ops, n, false, &tag2, &detail2);
+            if (res2 != res || tag2 != tag)
+            {
+                if (g_tot.herr.size() < 20)
+                    g_tot.herr.push_back(fmt("verdict not reproducible for %s: first [%s] then [%s]", cross_json(c, ops, n).c_str(), tag.c_str(),
+                                             res2 == RES_OK ? "ok" : tag2.c_str()));
+            }
+            else if (res == RES_HARNESS)
+            {
+                if (g_tot.herr.size() < 20)
+                    g_tot.herr.push_back(fmt("[%s] %s; case %s", tag.c_str(), detail.c_str(), cross_json(c, ops, n).c_str()));
+            }
+            else
+            {
+                ++g_cs.violations_total;
+                bool seen = false;
+                for (auto& s : g_tot.seen_tags)
+                    seen = seen || s == tag;
+                if (!seen)
+                {
+                    g_tot.seen_tags.push_back(tag);
+                    g_tot.viol.push_back(
+                        jobj().str("tag", tag).str("detail", gtype_name(c.gtype) + ": " + detail).raw("input", cross_json(c, ops, n)).done());
+                }
+            }
+        }
+        return res == RES_SKIPPED;
+    }
+
+    void cross_dfs(const cross_case& c, int* ops, int len, int depth)
+    {
+        for (int op = 0; op != COPS; ++op)
+        {
+            if (g_cs.violations_total >= CROSS_VIOLATION_CAP)
+                return;
+            ops[len]     = op;
+            bool skipped = cross_one(c, ops, len + 1);
+            if (g_tot.samples.size() < 6 && len + 1 == depth && !skipped && (g_cs.sequences % 4099) == 0)
+                g_tot.samples.push_back(cross_json(c, ops, len + 1));
+            if (!skipped && len + 1 < depth)
+                cross_dfs(c, ops, len + 1, depth);
+        }
+    }
+
+    // X small / Y large (assignments into X overflow), both roomy, X large / Y small
+    const cross_case g_ccases[] = {{0, {6, 96}}, {0, {64, 64}}, {1, {6, 96}}, {1, {20, 96}}, {2, {20, 96}}, {2, {96, 6}}};
+
+    void enumerate_cross(int depth, long part, long of)
+    {
+        long unit = 0;
+        for (auto& cc : g_ccases)
+            for (int first = 0; first != COPS; ++first, ++unit)
+            {
+                if (unit % of != part)
+                    continue;
+                int ops[12];
+                ops[0]       = first;
+                bool skipped = cross_one(cc, ops, 1);
+                if (!skipped && depth > 1)
+                    cross_dfs(cc, ops, 1, depth);
+            }
+    }
+
     int grow_replay(const char* js);
 #endif
 
@@ -2314,6 +2840,42 @@ namespace
     }
 
 #ifdef VERIF_JOINT_EXT
+    int cross_replay(const char* js)
+    {
+        std::string tn = json_str(js, "type");
+        int         g  = -1;
+        for (int k = 0; k != NGTYPES; ++k)
+            if (gtype_name(k) == tn)
+                g = k;
+        if (g < 0)
+        {
+            std::printf("unknown type '%s'\n", tn.c_str());
+            return 2;
+        }
+        cross_case c{g, {std::size_t(json_num(js, "addx", 0)), std::size_t(json_num(js, "addy", 0))}};
+        int        ops[64];
+        int        n = parse_ops(js, ops, 64, COPS);
+        if (n < 0 || c.add[0] > 1024 || c.add[1] > 1024)
+            return 2;
+        std::printf("two joint objects with two vector<_, joint_allocator> members each (%s): X with %zu additional bytes in a block of "
+                    "upstream A, Y with %zu in a block of upstream B; offsets are relative to the object's own joint memory\n",
+                    tn.c_str(), c.add[0], c.add[1]);
+        std::string tag, detail;
+        int         res = cross_run(c, ops, n, true, &tag, &detail);
+        if (res == RES_VIOLATION)
+        {
+            std::printf("VIOLATION [%s] %s\n", tag.c_str(), detail.c_str());
+            return 1;
+        }
+        if (res == RES_HARNESS)
+        {
+            std::printf("HARNESS ERROR [%s] %s\n", tag.c_str(), detail.c_str());
+            return 3;
+        }
+        std::printf(res == RES_SKIPPED ? "sequence ends with an operation that is not enabled (skipped)\n" : "no violation\n");
+        return 0;
+    }
+
     int grow_replay(const char* js)
     {
         std::string tn = json_str(js, "type");
@@ -2356,6 +2918,8 @@ namespace
 #ifdef VERIF_JOINT_EXT
         if (json_str(js, "mode") == "grow")
             return grow_replay(js);
+        if (json_str(js, "mode") == "cross")
+            return cross_replay(js);
 #endif
         std::string tn = json_str(js, "type");
         std::size_t ti = NTYPES;
@@ -2437,6 +3001,10 @@ int main(int argc, char** argv)
     fm::out_of_memory::set_handler(silent_oom);
     install_guards(2000);
     g_seen.assign(NTYPES * NCLS * NOPS * 36 * 3 / 8 + 8, 0);
+#ifdef VERIF_JOINT_EXT
+    g_gseen.assign(6 * GOPS * 432 * 3 / 8 + 8, 0);
+    g_cseen.assign(3 * COPS * 1369 * 3 / 8 + 8, 0);
+#endif
     if (!rep.empty())
         return replay(rep.c_str());
 
@@ -2446,7 +3014,6 @@ int main(int argc, char** argv)
     double t0 = now_s();
 #ifdef VERIF_JOINT_EXT
     // extension TU: --mode throw (element constructors that throw) | grow (histories on one object's joint memory)
-    g_gseen.assign(6 * GOPS * 432 * 3 / 8 + 8, 0);
     if (depth > 8)
         depth = 8;
     int gdepth = depth > 0 ? int(depth) : (quick ? 5 : 6);
@@ -2456,6 +3023,8 @@ int main(int argc, char** argv)
                 enumerate_throw_type(ti);
     if (mode == "grow" || mode.empty())
         enumerate_grow(gdepth, part, of);
+    if (mode == "cross" || mode.empty())
+        enumerate_cross(gdepth, part, of);
     double wall = now_s() - t0;
     {
         jarr viol, herr, samples;
@@ -2489,24 +3058,42 @@ int main(int argc, char** argv)
             .num("raw_releases_of_non_last_allocation", (long long)g_gs.raw_releases_not_last)
             .num("arrays_created", (long long)g_gs.arrays)
             .num("arrays_refused", (long long)g_gs.arrays_refused)
-            .num("succeeded_although_reference_model_full", (long long)g_gs.succeeded_beyond_model)
-            .num("violating_sequences_total", (long long)(g_tot.violations_total + g_gs.violations_total));
-        long long   evals = (long long)(g_tot.sequences - g_tot.skipped) + (long long)(g_gs.sequences - g_gs.skipped);
+            .num("succeeded_although_reference_model_full", (long long)(g_gs.succeeded_beyond_model + g_cs.succeeded_beyond_model))
+            .num("cross_depth", mode == "cross" || mode.empty() ? gdepth : 0)
+            .num("cross_alphabet", COPS)
+            .num("cross_sequences", (long long)g_cs.sequences)
+            .num("cross_sequences_ending_with_disabled_op", (long long)g_cs.skipped)
+            .num("cross_operations", (long long)g_cs.ops)
+            .num("cross_move_assignments_ok", (long long)g_cs.move_assign_ok)
+            .num("cross_copy_assignments_ok", (long long)g_cs.copy_assign_ok)
+            .num("cross_assignments_threw_out_of_fixed_memory", (long long)g_cs.assign_refused)
+            .num("cross_assignments_that_reallocated_the_target", (long long)g_cs.assign_reallocated)
+            .num("cross_assignments_into_existing_capacity", (long long)g_cs.assign_in_place)
+            .num("cross_reallocations_by_growth", (long long)g_cs.reallocations)
+            .num("cross_growth_refused", (long long)g_cs.growth_refused)
+            .num("cross_object_resets", (long long)g_cs.resets)
+            .num("cross_other_object_reset_after_assignment", (long long)g_cs.assign_after_which_source_was_reset)
+            .num("violating_sequences_total", (long long)(g_tot.violations_total + g_gs.violations_total + g_cs.violations_total));
+        long long   evals = (long long)(g_tot.sequences - g_tot.skipped) + (long long)(g_gs.sequences - g_gs.skipped)
+                          + (long long)(g_cs.sequences - g_cs.skipped);
         std::string js =
             jobj()
                 .num("evaluations", evals)
-                .num("distinct_nontrivial", (long long)(g_distinct + g_gdistinct))
+                .num("distinct_nontrivial", (long long)(g_distinct + g_gdistinct + g_cdistinct))
                 .str("rule",
                      "throw: 12 joint types (4 layouts incl. initializer_list, throwing element types) x element counts 0..3 x {exact, "
                      "+16} additional bytes x 6 life cycles x EVERY k: the k-th element construction (default/value/copy/move) of the armed "
                      "operation throws, k = 1..past the last construction; grow: ALL sequences up to the stated depth of 15 operations "
                      "(push_back until reallocation on 2 vectors, shrink_to_fit, joint_allocator::allocate_node of 7 (size,alignment), "
                      "deallocate_node of any live raw node, joint_array) on the joint memory of one object, 3 element-type pairs x 2 "
-                     "(upstream, capacity); evaluations = sequences completely checked; distinct_nontrivial = distinct (type, class, "
+                     "(upstream, capacity); cross: ALL sequences up to the stated depth of 14 operations on TWO joint objects X (upstream A) "
+                     "and Y (upstream B) with two vector members each: X.v = std::move(Y.v), X.v = Y.v in both directions and for both "
+                     "members, push_back until reallocation on any of the 4 vectors, reset of either joint_ptr; 6 (element types, "
+                     "capacities) cases incl. targets too small for the source; evaluations = sequences completely checked; distinct_nontrivial = distinct (type, class, "
                      "operation, abstract state before it, outcome) tuples")
                 .raw("samples", samples.done())
-                .boolean("exhaustive", g_gs.violations_total < GROW_VIOLATION_CAP)
-                .num("excluded", (long long)(g_tot.skipped + g_gs.skipped))
+                .boolean("exhaustive", g_gs.violations_total < GROW_VIOLATION_CAP && g_cs.violations_total < CROSS_VIOLATION_CAP)
+                .num("excluded", (long long)(g_tot.skipped + g_gs.skipped + g_cs.skipped))
                 .dbl("wall_s", wall)
                 .raw("violations", viol.done())
                 .raw("harness_errors", herr.done())
